@@ -126,11 +126,18 @@ def step (s : St) (ws : List String) : St × String :=
       (s, "usesord " ++ (if gs.isEmpty then "-" else ",".intercalate gs))
     | none => (s, "unknown")
   | ["arity"] =>
-    -- applications of functions defined in this file with another number of arguments than their definition takes
-    let ar := s.decls.filterMap declArity
+    -- applications of functions defined in this file with another number of arguments than their definition takes,
+    -- and of GooseLang's type constructors with another number than they have
+    let ar := s.decls.filterMap declArity ++
+      [("slice.T", 1), ("mapT", 1), ("arrayT", 1), ("ptrT", 1), ("refT", 1), ("struct.t", 1), ("struct.ptrT", 1), ("prodT", 2), ("arrowT", 2), ("chanT", 1)]
     let bad := s.decls.flatMap (fun d =>
+      match d with
+      | .notation _ _ => []      -- (`Notation x := (t) (only parsing).`: the modifier is read as an argument)
+      | _ =>
       match d.name?, declBody d with
       | some n, some b => (appsOf b).filterMap (fun (g, k) =>
+          -- inside `Definition n`, a global `n` is an EARLIER n (a library function of that name), not this definition
+          if g == n then none else
           match ar.find? (·.1 == g) with
           | some (_, want) => if k != want then some s!"{n}:{g}:{k}:{want}" else none
           | none => none)
